@@ -52,8 +52,8 @@ CFG = {
         'read in the uom source; serde representation of a Quantity is its bare value',
         'extraction: ExtrOCamlFloats (float -> Float64, OCaml native doubles), coq-core.kernel Float64',
         'Coq.Floats.FloatAxioms abs_spec / opp_spec / SF2Prim_Prim2SF (only C18_z_symmetric_binary64)',
-        'the sharper continuity bound (max instead of sum of the two touched tabulated steps for lookups 8 ns apart that '
-        'straddle a knot) is NOT proved; it is checked on the implementation by the rel-drift-step8 lines with 1e-12 m slack',
+        'the rel-drift-step8 lines check the 0.5 mm / 8 ns figure on the implementation with 1e-12 m slack (a test beside '
+        'the straddle theorems, which are about the model)',
     ],
     'level_text': 'Coq theorems over R with Flocq round-to-nearest-even (binary64 format, FLT_exp (-1074) 53) applied after every '
                   'operation, for ANY table satisfying table_ok and for all representable inputs: success iff |z| <= zmax and '
@@ -70,4 +70,4 @@ CFG = {
 }
 
 CFG["level_extra"] = ('Continuity across a knot is proved for the rounded lookup: for t1 <= t_k <= t2 not further apart than the knot spacing, 0 <= r(t1) - r(t2) <= max(step_(k-1), step_k) + an explicit rounding term (<= 6e-17 m on the current tables), hence < 0.5 mm + 1e-15 m whenever neither touched segment is in the known class, and < 0.66 mm + 1e-15 m always (C18_knot_straddle, C18_half_mm_straddle_8ns, C18_straddle_lt_066_mm_8ns; table facts by computation over the regenerated tables).')
-CFG["level_extra"] = CFG["level_extra"] + ' For lookups 8 ns apart that touch three segments (possible at 276 knots because the spacing is 8 ns +- 1e-21 s) only the sum bound is proved; the 0.5 mm figure is measured there (rel-drift-step8). The proved bound is < 0.5 mm + 1e-15 m.'
+CFG["level_extra"] = CFG["level_extra"] + ' The straddle theorems cover two lookups that touch at most two segments. The tabulated knot spacing is 8 ns only up to about 1e-21 s, so where a spacing is slightly below 8 ns two lookups exactly 8 ns apart could touch three segments if both fall in a window at most 1e-21 s wide; for that case only the sum bound C18_step_bound_partial is proved, and no generated case lies in such a window (it is neither proved impossible for binary64 times nor measured). The proved bound is < 0.5 mm + 1e-15 m.'
